@@ -43,6 +43,23 @@ def hx(bs):
     return "".join("%02x" % b for b in bs) if len(bs) else "-"
 
 
+class PersistentDriver:
+    """one long-lived model-driver process for the trace validations (a process per trace is slow on a loaded machine)"""
+    def __init__(self, exe, cwd):
+        import subprocess
+        self.p = subprocess.Popen([exe], stdin=subprocess.PIPE, stdout=subprocess.PIPE, stderr=subprocess.DEVNULL, text=True, cwd=cwd, bufsize=1)
+
+    def ask(self, op):
+        self.p.stdin.write("case 0\n%s\nend\n" % op); self.p.stdin.flush()
+        ans = None
+        while True:
+            l = self.p.stdout.readline()
+            if l == "": raise RuntimeError("driver died")
+            l = l.rstrip("\n")
+            if l == "end": return ans
+            if not l.startswith("case "): ans = l
+
+
 def kv(line):
     return dict(x.split("=", 1) for x in line.split() if "=" in x)
 
@@ -339,6 +356,17 @@ class C12(Prop):
         i = line.find(" trace=")
         return line[:i] if i >= 0 else line
 
+    def validate(self, ctx, op):
+        """answer of the model driver to one trace-validation op"""
+        try:
+            if getattr(ctx, "_c12_driver", None) is None:
+                ctx._c12_driver = PersistentDriver(ctx.driver_exe, ctx.work)
+            r = ctx._c12_driver.ask(op)
+            if r is not None: return r
+        except Exception:
+            ctx._c12_driver = None
+        return (run_side(ctx.driver_exe, [{"name": "t", "ops": [op]}], cwd=ctx.work)[0] or ["<no answer>"])[0]
+
     def compare(self, ctx, case, impl_out, model_out):
         # the implementation's process dies at a fault: compare up to and including that line only
         for i, l in enumerate(impl_out):
@@ -352,7 +380,7 @@ class C12(Prop):
         for i, (op, l) in enumerate(zip(case["ops"], impl_out)):
             if op.startswith("wqrun ") and " trace=" in l:
                 tr = l[l.find(" trace=") + 7:]
-                res = run_side(ctx.driver_exe, [{"name": "t", "ops": ["wqtrace size=%s ev=%s" % (kv(op)["size"], tr)]}], cwd=ctx.work)[0] or ["<no answer>"]
+                res = [self.validate(ctx, "wqtrace size=%s ev=%s" % (kv(op)["size"], tr))]
                 ctx.stats["trace_steps_validated"] = ctx.stats.get("trace_steps_validated", 0) + tr.count(";") + 1
                 if not res[0].startswith("ok "):
                     return (i, "trace: " + res[0][:400], "trace: a path of the work-queue model")
@@ -361,13 +389,13 @@ class C12(Prop):
                 a, r = kv(op), kv(l[:l.find(" trace=")])
                 i0s = ",".join(c.split(":")[0] for c in r["chunks"].split(",")) if r.get("chunks", "-") != "-" else "-"
                 U = int(a["unpackers"]) or 4
-                res = run_side(ctx.driver_exe, [{"name": "t", "ops": ["dsqtrace U=%d C=%s i0=%s ev=%s" % (U, a["consumers"], i0s, tr)]}], cwd=ctx.work)[0] or ["<no answer>"]
+                res = [self.validate(ctx, "dsqtrace U=%d C=%s i0=%s ev=%s" % (U, a["consumers"], i0s, tr))]
                 ctx.stats["trace_steps_validated"] = ctx.stats.get("trace_steps_validated", 0) + tr.count(";") + 1
                 if not res[0].startswith("ok "):
                     return (i, "trace: " + res[0][:400], "trace: a path of the dsqdata pipeline model")
             if op.startswith("thrun ") and " trace=" in l:
                 tr = l[l.find(" trace=") + 7:]
-                res = run_side(ctx.driver_exe, [{"name": "t", "ops": ["thtrace ev=%s" % tr]}], cwd=ctx.work)[0] or ["<no answer>"]
+                res = [self.validate(ctx, "thtrace ev=%s" % tr)]
                 ctx.stats["trace_steps_validated"] = ctx.stats.get("trace_steps_validated", 0) + tr.count(";") + 1
                 if not res[0].startswith("ok "):
                     return (i, "trace: " + res[0][:400], "trace: a path of the start-rendezvous model")
